@@ -92,10 +92,21 @@ func (o ob) js() any {
 
 // runMerge drives the real mergeCollectionExcess goroutine with the actions, one at a time.
 // Must run on a goroutine that drives one pipe at a time (the probe keys on the creator).
-func runMerge(acts []act) []ob {
+//
+// The second result is the index of the first Send whose *CollectionChange object was modified by
+// the goroutine (-1: none).  The bus hands one object to every listener, so the merge stage must
+// work on its own copy (`newMessage := *(newAny.(*CollectionChange))`); the model cannot even
+// express the aliasing (its Send takes a value), so this is observed directly.
+func runMerge(acts []act) ([]ob, int) {
 	p := startPipe(resource.VerifMergeCollectionExcess, "mergeCollectionExcess", "VerifMergeCollectionExcess")
 	obs := make([]ob, 0, len(acts))
-	for _, a := range acts {
+	type sentObj struct {
+		idx  int
+		ptr  *resource.CollectionChange
+		want cchange
+	}
+	var sentObjs []sentObj
+	for ai, a := range acts {
 		if n := len(obs); n > 0 && (obs[n-1].Kind == 'b' || obs[n-1].Kind == 'k') {
 			break // stuck: every further action would only wait again; the shorter observation list is judged as a failure
 		}
@@ -106,6 +117,7 @@ func runMerge(acts []act) []ob {
 				continue
 			}
 			ch := a.C.real()
+			sentObjs = append(sentObjs, sentObj{idx: ai, ptr: &ch, want: canonChange(&ch)})
 			if p.send(&ch) {
 				obs = append(obs, ob{Kind: 's'})
 			} else {
@@ -136,7 +148,14 @@ func runMerge(acts []act) []ob {
 		}
 	}
 	p.closeIn()
-	return obs
+	mutated := -1
+	for _, so := range sentObjs {
+		if !canonChange(so.ptr).equal(so.want) {
+			mutated = so.idx
+			break
+		}
+	}
+	return obs, mutated
 }
 
 // ---- DropExcess ----
@@ -430,15 +449,29 @@ func min64(a, b int64) int64 {
 
 func addMergeCases(o *vcoq.Out, seqs [][]act, tag string) {
 	results := make([][]ob, len(seqs))
+	mutated := make([]int, len(seqs))
 	parallel(len(seqs), func(i int) {
 		if !tooMuchTrouble() {
-			results[i] = runMerge(seqs[i])
+			results[i], mutated[i] = runMerge(seqs[i])
 		}
 	})
+	nmut := 0
 	for i, acts := range seqs {
 		obs := results[i]
 		if obs == nil {
 			continue // skipped, see tooMuchTrouble
+		}
+		if mutated[i] >= 0 && nmut < 3 {
+			nmut++
+			ja := make([]any, len(acts))
+			for k, a := range acts {
+				ja[k] = a.js()
+			}
+			o.Directs = append(o.Directs, vcoq.Direct{
+				What:   "mergeCollectionExcess modified a *CollectionChange object it was sent; the bus hands the same object to every other listener, whose events are thereby rewritten (kinds / old values no longer the committed edit script)",
+				Class:  "c09:sent-object-modified",
+				Replay: map[string]any{"pipeline": "mergeCollectionExcess", "actions": ja, "modified_send_at": mutated[i]},
+			})
 		}
 		ja := make([]any, len(acts))
 		for k, a := range acts {
